@@ -206,3 +206,38 @@ Proof.
   intros Hv Hn Hc Hwi Hwj. rewrite (maxpool2d_neginf_iff g x n c wi wj Hv Hn Hc Hwi Hwj).
   split; intros Hall a b Ha Hb; specialize (Hall a b Ha Hb); now apply (phi_win_opt_real g wi wj n c a b Hv).
 Qed.
+
+(* ------------------------------------------------------------------ F.fold accepts exactly the arguments of consistent shape *)
+Theorem fold_accepts_iff N R L H W q : 0 < fst (g_k q) -> 0 < snd (g_k q) ->
+  (fold_accepts N R L H W q = true <->
+   exists C, R = C * fst (g_k q) * snd (g_k q) /\
+             1 <= lH (mk_geom N C H W q) /\ 1 <= lW (mk_geom N C H W q) /\ L = lH (mk_geom N C H W q) * lW (mk_geom N C H W q)).
+Proof.
+  intros Hk1 Hk2. unfold fold_accepts, fold_geom.
+  rewrite !andb_true_iff, !Z.leb_le, !Z.eqb_eq. cbn [gC kH kW mk_geom].
+  change (lH (mk_geom N (R / (fst (g_k q) * snd (g_k q))) H W q)) with (lH (mk_geom N 0 H W q)).
+  change (lW (mk_geom N (R / (fst (g_k q) * snd (g_k q))) H W q)) with (lW (mk_geom N 0 H W q)).
+  split.
+  - intros (((H1 & H2) & H3) & H4). exists (R / (fst (g_k q) * snd (g_k q))).
+    change (lH (mk_geom N (R / (fst (g_k q) * snd (g_k q))) H W q)) with (lH (mk_geom N 0 H W q)).
+    change (lW (mk_geom N (R / (fst (g_k q) * snd (g_k q))) H W q)) with (lW (mk_geom N 0 H W q)). auto.
+  - intros (C & ER & H1 & H2 & H4).
+    change (lH (mk_geom N C H W q)) with (lH (mk_geom N 0 H W q)) in *.
+    change (lW (mk_geom N C H W q)) with (lW (mk_geom N 0 H W q)) in *.
+    assert (EC : R / (fst (g_k q) * snd (g_k q)) = C).
+    { rewrite ER, <- Z.mul_assoc. apply Z.div_mul. nia. }
+    rewrite EC. repeat split; auto.
+Qed.
+
+(* when F.fold accepts (and strides, dilations are positive, paddings non-negative) the geometry is valid, so fold_sums_overlaps
+   describes the result *)
+Theorem fold_accepts_valid N R L H W q : 0 <= N -> 0 <= R -> 0 <= H -> 0 <= W ->
+  0 < fst (g_k q) -> 0 < snd (g_k q) -> 0 < fst (g_s q) -> 0 < snd (g_s q) -> 0 <= fst (g_p q) -> 0 <= snd (g_p q) ->
+  0 < fst (g_d q) -> 0 < snd (g_d q) ->
+  fold_accepts N R L H W q = true -> valid (fold_geom N R L H W q).
+Proof.
+  intros HN HR HH HW Hk1 Hk2 Hs1 Hs2 Hp1 Hp2 Hd1 Hd2. unfold fold_accepts.
+  rewrite !andb_true_iff, !Z.leb_le. intros (((H1 & H2) & _) & _).
+  unfold valid, fold_geom in *. cbn [gN gC gH gW kH kW sH sW pH pW dH dW mk_geom] in *.
+  repeat split; auto; try lia. apply Z.div_pos; nia.
+Qed.
